@@ -170,14 +170,19 @@ def k_trailer_after_setters(ctx, which, seed):
     case = {"k": "trailer_after_setters", "which": which, "seed": seed}
     ctx.case(f"trailer_after_setters/{which}", (which, seed), sample=case)
     from spacepackets.ecss import check_pus_crc
+    produced = []           # (step index, op, octets) of everything that was packed along the way
+
+    def emit(i, op, octets):
+        produced.append((i, op, bytes(octets)))
+
     if which == "tc":
         t = c02.build(r.choice(c02.ROUTES), r.getrandbits(11), r.getrandbits(14), r.getrandbits(8), r.getrandbits(8), r.getrandbits(16), r.getrandbits(4), r.randbytes(r.randrange(0, 30)))
         steps = []
-        for _ in range(r.randrange(1, 6)):
-            op = r.choice(("pack", "calc_crc", "apid", "seq_count", "source_id", "app_data_same_len", "to_space_packet"))
+        for i in range(r.randrange(1, 7)):
+            op = r.choice(("pack", "calc_crc", "apid", "seq_count", "source_id", "app_data_same_len", "app_data", "to_space_packet", "unpack_own"))
             steps.append(op)
             if op == "pack":
-                t.pack()
+                emit(i, op, t.pack())
             elif op == "calc_crc":
                 t.calc_crc()
             elif op == "apid":
@@ -188,34 +193,71 @@ def k_trailer_after_setters(ctx, which, seed):
                 t.source_id = r.getrandbits(16)
             elif op == "app_data_same_len":
                 t.app_data = r.randbytes(len(t.app_data))
+            elif op == "app_data":
+                t.app_data = r.randbytes(r.randrange(0, 30))
+            elif op == "unpack_own":
+                from spacepackets.ecss.tc import PusTc
+                t = PusTc.unpack(bytes(t.pack()))
             else:
-                t.to_space_packet()
-        p = bytes(t.pack())
+                emit(i, op, t.to_space_packet().pack())
+        emit(len(steps), "final_pack", t.pack())
     elif which == "tm":
         ts = r.randbytes(r.choice((0, 7, 16)))
         t = c03.build(r.choice(("ctor", "composite")), r.getrandbits(11), r.getrandbits(14), r.getrandbits(8), r.getrandbits(8), r.getrandbits(16), r.getrandbits(16),
                       r.getrandbits(4), r.getrandbits(3), ts, r.randbytes(r.randrange(0, 30)))
         steps = []
-        for _ in range(r.randrange(1, 6)):
-            op = r.choice(("pack", "calc_crc", "apid", "tm_data", "to_space_packet"))
+        for i in range(r.randrange(1, 7)):
+            op = r.choice(("pack", "calc_crc", "apid", "seq_count", "tm_data", "to_space_packet", "unpack_own"))
             steps.append(op)
             if op == "pack":
-                t.pack()
+                emit(i, op, t.pack())
             elif op == "calc_crc":
                 t.calc_crc()
             elif op == "apid":
                 t.apid = r.getrandbits(11)
+            elif op == "seq_count":
+                t.sp_header.seq_count = r.getrandbits(14)
             elif op == "tm_data":
                 t.tm_data = r.randbytes(r.randrange(0, 30))
+            elif op == "unpack_own":
+                from spacepackets.ecss.tm import PusTm
+                t = PusTm.unpack(bytes(t.pack()), len(ts))
             else:
-                t.to_space_packet()
-        p = bytes(t.pack())
+                emit(i, op, t.to_space_packet().pack())
+        emit(len(steps), "final_pack", t.pack())
     else:
         raise AssertionError(which)
-    ctx.check("trailer_is_crc", crc16(p[:-2]).to_bytes(2, "big") == p[-2:] and check_pus_crc(p) is True, "packed_trailer_wrong", which, case, steps=steps, observed=p)
+    for i, op, p in produced:
+        ctx.table("trailer_after_setters/producing_op", f"{which}:{op}")
+        prev = [s_ for s_ in steps[:i] if s_ not in ("pack", "to_space_packet")]
+        how = op if op != "final_pack" else "pack"
+        if not ctx.check("trailer_is_crc", crc16(p[:-2]).to_bytes(2, "big") == p[-2:] and check_pus_crc(p) is True, "packed_trailer_wrong",
+                         f"{which}/{how}" + ("/after_changes" if prev else ""), case, steps=steps, at_step=i, observed=p):
+            break
 
 
-KINDS = {"pus": k_pus, "pdu": k_pdu, "trailer_after_setters": k_trailer_after_setters}
+def k_pdu_setters(ctx, kind, cfg, p, seed):
+    """A PDU with the CRC flag that reached its final values through the documented setters: trailer = CRC, and it is accepted."""
+    from . import c06, c07
+    X = C.lib()
+    case = {"k": "pdu_setters", "kind": kind, "cfg": cfg, "p": p, "seed": seed}
+    ctx.case(f"pdu_via_setters/{kind}/large={cfg['large']}", (kind, json.dumps(cfg, sort_keys=True), json.dumps(p, sort_keys=True), seed), sample=case)
+    want = C.ref_octets(kind, cfg, p)
+    if kind == "file_data":
+        ok, pdu = attempt(c07.build_via_setters, cfg, p, seed)
+    else:
+        ok, b = attempt(c06.build_via_setters, kind, cfg, p, seed)
+        pdu = b[0] if ok else b
+    ok2, raw = attempt(lambda: bytes(pdu.pack())) if ok else (False, pdu)
+    if not ctx.check("trailer_is_crc", ok and ok2 and crc16(raw[:-2]).to_bytes(2, "big") == raw[-2:] and raw == want, "packed_trailer_wrong",
+                     f"{kind}/after_setters", case, observed=raw if ok2 else repr(raw), expected=want):
+        return
+    for name, d in (("class", X.CLS[kind].unpack), ("factory", X.PduFactory.from_raw)):
+        ok, u = attempt(d, raw)
+        ctx.check("uncorrupted_accepted", ok and u is not None, "valid_packet_refused", f"{kind}/{name}/after_setters", case, error=None if ok else repr(u))
+
+
+KINDS = {"pus": k_pus, "pdu": k_pdu, "trailer_after_setters": k_trailer_after_setters, "pdu_setters": k_pdu_setters}
 
 
 def selftest(ctx):
@@ -273,8 +315,12 @@ def run(ctx):
                     if kind == "metadata":
                         p["src_name"], p["dst_name"] = "a.txt", "b"
                 k_pdu(ctx, kind, cfg, p, full=full)
-    for s in range(ctx.n(400, 20_000)):
+    for s in range(ctx.n(600, 30_000)):
         k_trailer_after_setters(ctx, "tc" if s & 1 else "tm", ctx.seed * 1_000_003 + ctx.shard[0] * 100_003 + s)
+    for s in range(ctx.n(360, 18_000)):
+        kind = ("eof", "finished", "metadata", "nak", "keep_alive", "file_data")[s % 6]
+        cfg = C.rand_cfg(r, segctrl=(kind == "file_data"), crc=1)
+        k_pdu_setters(ctx, kind, cfg, C.rand_params(r, kind, cfg), ctx.seed * 1_000_003 + ctx.shard[0] * 100_003 + s)
 
 
 def conclude(ctx):
